@@ -7,13 +7,26 @@ namespace Folang.Sem
 
 /-! ### well-formedness of source programs (the hypotheses of the theorem) -/
 
-/-- an effect-free argument of a partial application: a literal or a variable that the closure's
-parameters `rs` do not capture (known finding D9: with any other argument expression the lowering is
-NOT faithful; Props/C01.papp_effects_late) -/
-def isAtomFor (rs : List String) : Expr → Bool
+/-- primitives that produce no output -/
+def isSilentPrim : Prim → Bool
+  | .println => false
+  | .printf1 => false
+  | _ => true
+
+/- an effect-free argument of a partial application: built from literals, variables that the
+closure's parameters `rs` do not capture, and output-free primitives (constructors, operators, …).
+(Known finding D9: with an effectful argument expression the lowering is NOT faithful;
+Props/C01.papp_effects_late.) -/
+mutual
+def isPureFor (rs : List String) : Expr → Bool
   | .lit _ => true
   | .var x => !rs.contains x
+  | .prim p args => isSilentPrim p && isPureForL rs args
   | _ => false
+def isPureForL (rs : List String) : List Expr → Bool
+  | [] => true
+  | e :: es => isPureFor rs e && isPureForL rs es
+end
 
 mutual
 def wfE : Expr → Bool
@@ -24,7 +37,7 @@ def wfE : Expr → Bool
   | .or a b => wfE a && wfE b
   | .ite c t f => wfE c && wfB t && wfB f
   | .call _ arity args =>
-    wfL args && (if args.length < arity then args.all (isAtomFor (restNames (arity - args.length))) else true)
+    wfL args && (if args.length < arity then isPureForL (restNames (arity - args.length)) args else true)
   | .callv f args => wfE f && wfL args
   | .lam _ b => wfB b
   | .pipe a f => wfE a && wfE f
@@ -60,22 +73,38 @@ def wfProg (P : Prog) : Prop := ∀ d ∈ P, wfB d.body = true
 
 /-! ### the relation -/
 
-/-- evaluation of the (lowered) atoms of a partial application in the closure's environment -/
-def gatomEval (genv : GEnv) : GExpr → Option GVal
-  | .lit l => some (.fo (.lit l))
-  | .var x => lookup genv x
-  | _ => none
-
-def gatomEvals (genv : GEnv) : List GExpr → Option (List GVal)
+/-- a list of optional results -/
+def optList {α β : Type} (f : α → Option β) : List α → Option (List β)
   | [] => some []
-  | e :: es => match gatomEval genv e, gatomEvals genv es with
+  | e :: es => match f e, optList f es with
     | some v, some vs => some (v :: vs)
     | _, _ => none
 
-def isGAtomFor (rs : List String) : GExpr → Bool
+/-- evaluation of the (lowered) pure given arguments of a partial application in the closure's
+environment; the fuel `k` bounds the nesting depth -/
+def gpureEvalN : Nat → GEnv → GExpr → Option GVal
+  | 0, _, _ => none
+  | _ + 1, _, .lit l => some (.fo (.lit l))
+  | _ + 1, genv, .var x => lookup genv x
+  | k + 1, genv, .prim p args =>
+    match optList (gpureEvalN k genv) args with
+    | some vs =>
+      match gtoFOs vs with
+      | some fos => (primFO p fos).map (fun r => GVal.fo r.2)
+      | none => none
+    | none => none
+  | _ + 1, _, _ => none
+
+mutual
+def isGPureFor (rs : List String) : GExpr → Bool
   | .lit _ => true
   | .var x => !rs.contains x
+  | .prim p args => isSilentPrim p && isGPureForL rs args
   | _ => false
+def isGPureForL (rs : List String) : List GExpr → Bool
+  | [] => true
+  | e :: es => isGPureFor rs e && isGPureForL rs es
+end
 
 mutual
 inductive VRel : SVal → GVal → Prop where
@@ -83,8 +112,8 @@ inductive VRel : SVal → GVal → Prop where
   | clo {ps : List String} {b : Body} {env : Env} {genv : GEnv} :
       wfB b = true → ERel env genv → VRel (.clo ps b env) (.clo ps (lowerB b) genv)
   | pap {f : String} {arity : Nat} {vs : List SVal} {ges : List GExpr} {gvs : List GVal} {genv : GEnv} :
-      vs.length < arity → gatomEvals genv ges = some gvs → VRels vs gvs →
-      (∀ ge ∈ ges, isGAtomFor (restNames (arity - vs.length)) ge = true) →
+      {k : Nat} → vs.length < arity → optList (gpureEvalN k genv) ges = some gvs → VRels vs gvs →
+      isGPureForL (restNames (arity - vs.length)) ges = true →
       VRel (.pap f arity vs)
         (.clo (restNames (arity - vs.length))
           (.mk [] (.ret (.callFn f (ges ++ (restNames (arity - vs.length)).map GExpr.var)))) genv)
